@@ -25,7 +25,7 @@ func init() {
 			"on error / unknown-dedicated results.",
 		NotCovered: "parsing of identifiers from TLS server names, URL paths, userinfo and EDNS options (string work); " +
 			"the profile database's own lookups (C14); the password-hash comparison itself.",
-		Rules: map[string]string{"C03-R18": "Default.Refresh stores the backend's sync time with the file cache; a restart then fetches every deletion and detachment made since (table shared with C14-R8)", "C03-R17": "every backend update that converts reaches the profile database, so deletions and detached devices take effect (shared with C14-R16)", "C03-R16": "CreateAutoDevice asks the storage only for an existing profile with automatic devices enabled", "C03-RC": "class rules (error chains, shadowed results, character classes, crossed arguments, pool constructors, array pools, loop completeness, loop-carried buffers, replacing setters, complete clones, Grow arithmetic, pooled-buffer escape, sorted searches, fresh decode targets, per-iteration objects, whole-message copies, codec guards) over the packages this property rests on", "C03-R15": "matchDomain: lower-cased name, the library's immediate-subdomain test against every device domain, first match wins", "C03-R14": "auth settings are dropped by the file-cache codec only when absent or disabled; setProfiles stores deleted profiles over the live record (shared rules)", "C03-R13": "per-element objects built in conversion loops (server groups, devices) take no slice accumulated over earlier elements",
+		Rules: map[string]string{"C03-R19": "every Unpack on the receive paths is bounded by the bytes read for this message (shared with C06-R1)", "C03-R20": "backendpb.dohPasswordToInternal: AllowAuthenticator only for an absent hash; a present hash, even an empty one, becomes a bcrypt authenticator", "C03-R18": "Default.Refresh stores the backend's sync time with the file cache; a restart then fetches every deletion and detachment made since (table shared with C14-R8)", "C03-R17": "every backend update that converts reaches the profile database, so deletions and detached devices take effect (shared with C14-R16)", "C03-R16": "CreateAutoDevice asks the storage only for an existing profile with automatic devices enabled", "C03-RC": "class rules (error chains, shadowed results, character classes, crossed arguments, pool constructors, array pools, loop completeness, loop-carried buffers, replacing setters, complete clones, Grow arithmetic, pooled-buffer escape, sorted searches, fresh decode targets, per-iteration objects, whole-message copies, codec guards) over the packages this property rests on", "C03-R15": "matchDomain: lower-cased name, the library's immediate-subdomain test against every device domain, first match wins", "C03-R14": "auth settings are dropped by the file-cache codec only when absent or disabled; setProfiles stores deleted profiles over the live record (shared rules)", "C03-R13": "per-element objects built in conversion loops (server groups, devices) take no slice accumulated over earlier elements",
 			"C03-R1":  "decision tree of Find equals the reference (channel precedence, deleted profile, authentication table)",
 			"C03-R2":  "supportsDeviceID table",
 			"C03-R3":  "who may construct *agd.DeviceResultOK",
@@ -48,6 +48,13 @@ const dfPkg = "dnssvc/internal/devicefinder."
 func runC03(c *an.Ctx) {
 	c03CreateAutoDevice(c)
 	classSweep(c, "C03")
+	// ---- R19: a query is decoded from the bytes of its own datagram only, so no identifier (EDNS CPE-ID) of an
+	// earlier client is picked up from the stale tail of a pooled buffer (shared with C06-R1); R20: a device keeps
+	// the password the backend sent, however short (table of dohPasswordToInternal)
+	c.Floor("C03-R19", 3)
+	c.Borrow("C03-R19", runC06, func(o an.Obligation) bool { return o.Rule == "C06-R1" })
+	c.Floor("C03-R20", 1)
+	c03AllowOnlyAbsent(c, "C03-R20")
 	// ---- R17: an update that deletes a profile or detaches a device is not filtered out on its way to the database (shared with C14-R16)
 	c.Floor("C03-R17", 1)
 	c.Borrow("C03-R17", runC14, func(o an.Obligation) bool { return o.Rule == "C14-R16" })
@@ -1060,4 +1067,44 @@ func c03CreateAutoDevice(c *an.Ctx) {
 			return ""
 		},
 	})
+}
+
+// c03AllowOnlyAbsent: the backend decoder gives a device "no password"
+// (AllowAuthenticator) only when the message has no password hash at all.  A
+// hash that is present, whatever it contains, becomes a bcrypt authenticator
+// (an empty hash rejects every password).  Every return of AllowAuthenticator
+// in dohPasswordToInternal must lie outside the cases of the type switch that
+// have matched a concrete hash type.
+func c03AllowOnlyAbsent(c *an.Ctx, rule string) {
+	const k = "backendpb.dohPasswordToInternal"
+	fn := c.Fn(k)
+	key := k + " returns AllowAuthenticator only for an absent hash"
+	if fn == nil {
+		c.Und(rule, key, token.NoPos, "anchor not found")
+		return
+	}
+	c.Analysed(k)
+	n := 0
+	bad := ""
+	for _, r := range an.Returns(fn) {
+		if len(r.Results) == 0 {
+			continue
+		}
+		mi, ok := r.Results[0].(*ssa.MakeInterface)
+		if !ok || !strings.HasSuffix(an.TypeName(mi.X.Type()), "agdpasswd.AllowAuthenticator") {
+			continue
+		}
+		n++
+		for _, e := range an.DominatingConds(r.Block()) {
+			ex, ok := e.If.Cond.(*ssa.Extract)
+			if !ok || ex.Index != 1 || !e.Branch {
+				continue
+			}
+			if ta, ok := ex.Tuple.(*ssa.TypeAssert); ok {
+				bad = fmt.Sprintf("AllowAuthenticator is returned at %s inside the case for %s", c.Pos(r.Pos()), an.TypeName(an.Deref(ta.AssertedType)))
+			}
+		}
+	}
+	c.Check(n > 0 && bad == "", rule, key, fn.Pos(), fmt.Sprintf("%d returns of AllowAuthenticator, none inside a case that matched a hash type", n),
+		bad+": a device whose hash is present (but, say, empty) is recognised with any password")
 }
